@@ -89,6 +89,16 @@ def deep_cases(tier, seed):
         counts = np.ones(depth, dtype=np.int64)
         for F in (0.0, 0.2):
             yield ploidy, H, reads, counts, F, None
+    # ploidy 8 - 12 (dosages of 8 and more copies of one allele), few haplotypes, shallow reads
+    for ploidy, nh in ([(8, 2), (10, 2)] if tier == "quick" else [(8, 2), (8, 3), (10, 2), (12, 2), (9, 3)]):
+        H = np.unique(rng.integers(0, 2, size=(60, N)).astype(np.int8), axis=0)
+        H = H[rng.permutation(len(H))][:nh]
+        reads, counts = make_reads(rng, int(rng.integers(2, 6)), N, 2)
+        v = rng.random(len(H)) + 0.1
+        v /= v.sum()
+        for F in (0.0, 0.1):
+            for fr in (None, v):
+                yield ploidy, H, reads, counts, F, fr
 
 
 def check_exact_kernels(tier, seed):
